@@ -20,7 +20,7 @@
    schedules are replayed through `accepts`. *)
 From Coq Require Import List Arith Bool Wf_nat.
 Import ListNotations.
-From SV Require Import C13.Stream C13.Lemmas.
+From SV Require Import C13.Stream C13.Lemmas C13.Poll C13.PollLemmas.
 
 (* --- the specification, restated ---------------------------------------- *)
 
@@ -198,3 +198,228 @@ Proof. exact ex_bad_traces_rejected. Qed.
 Example ex_skeletons_match :
   skeletons_match (mkSkeletons modelled_video_run modelled_labels_run true modelled_consumer true).
 Proof. exact ex_skeletons_match_satisfiable. Qed.
+
+(* ================================================================================== *)
+(* --- widened model (C13/Poll.v): timed get, polling consumers, reader construction --- *)
+
+(* `xstep c m` = Stream.lstep plus, for m = Polling, the rule "get(timeout) raises Empty when the
+   queue is empty" (the consumer retries), and for m = GiveUp the time-out followed by an
+   `is_alive()` look at the reader thread.  `waits_for_marker m` holds for Blocking and Polling.
+   Fairness: a schedule may let the timed get expire for ever while the reader is starved; the
+   theorems below say that this is the ONLY way not to finish, and that it is unfair. *)
+
+Lemma xstep_rules : forall c m l x x', waits_for_marker m = true -> chk x = false -> xstep c m l x x' ->
+  chk x' = false /\ ((exists l0, l = xlabel l0 /\ lstep c l0 (base x) (base x')) \/ (is_timeout l = true /\ x' = x)).
+Proof. exact xstep_waits. Qed.
+Print Assumptions xstep_rules.
+
+(* the rule pair is exclusive: the time-out is enabled exactly when the consumer is at a get and
+   the queue is empty, and then no step of the system takes anything from the queue *)
+Theorem c13_timeout_enabled_iff : forall c x,
+  (exists x', xstep c Polling (Some XTimeout) x x') <->
+  (chk x = false /\ (exists k acc, cc (base x) = CCollect (S k) acc) /\ q (base x) = []).
+Proof. exact timeout_enabled_iff. Qed.
+Print Assumptions c13_timeout_enabled_iff.
+
+Theorem c13_timeout_excludes_get : forall c m x x' s' l,
+  xstep c m (Some XTimeout) x x' -> lstep c l (base x) s' -> taken s' = taken (base x).
+Proof. exact timeout_excludes_get. Qed.
+Print Assumptions c13_timeout_excludes_get.
+
+(* (a) safety with a polling consumer: the stream invariant in every reachable state *)
+Theorem c13_poll_invariant : forall c m x, waits_for_marker m = true -> xreach c m x ->
+  chk x = false /\
+  concat (yielded (base x)) ++ collecting (base x) ++ frames (q (base x))
+    ++ in_flight (base x) ++ unread c (base x) = delivered c
+  /\ sentinel_count (base x) <= 1
+  /\ (sentinel_count (base x) = 1 <-> pp (base x) = PDone).
+Proof. exact poll_invariant. Qed.
+Print Assumptions c13_poll_invariant.
+
+(* (b) deadlock freedom, strong form: in every reachable non-final state a step OTHER than a
+   time-out is enabled (so a run that only times out from some point on starves an enabled thread) *)
+Theorem c13_poll_progress_enabled : forall c m x, waits_for_marker m = true -> xreach c m x ->
+  ~ xfinal x -> exists x', pstep c m x x'.
+Proof. exact poll_progress_enabled. Qed.
+Print Assumptions c13_poll_progress_enabled.
+
+(* (c) termination under fairness.  A time-out changes nothing, every other step decreases the
+   measure of Stream.v; *)
+Theorem c13_poll_step_measure : forall c m l x x',
+  waits_for_marker m = true -> 0 < batch c -> chk x = false -> xstep c m l x x' ->
+  if is_timeout l then x' = x else measure c (base x') < measure c (base x).
+Proof. exact poll_step_measure. Qed.
+Print Assumptions c13_poll_step_measure.
+
+(* hence any run holds at most 4(end-start)+8 steps that are not time-outs; *)
+Theorem c13_poll_progress_bound : forall c m ls x, waits_for_marker m = true -> 0 < batch c ->
+  xpath c m (xinit c) ls x -> progress_count ls <= 4 * (end_ c - start_ c) + 8.
+Proof. exact poll_progress_bound. Qed.
+Print Assumptions c13_poll_progress_bound.
+
+(* no infinite run makes progress infinitely often (every infinite run is eventually the consumer
+   timing out for ever in one state, with another step enabled all the time: not weakly fair); *)
+Theorem c13_poll_no_fair_infinite_run : forall c m (sigma : nat -> xst) (lab : nat -> option xevent),
+  waits_for_marker m = true -> 0 < batch c -> sigma 0 = xinit c ->
+  (forall n, xstep c m (lab n) (sigma n) (sigma (S n))) ->
+  ~ (forall N, exists n, N <= n /\ is_timeout (lab n) = false).
+Proof. exact poll_no_fair_infinite_run. Qed.
+Print Assumptions c13_poll_no_fair_infinite_run.
+
+(* under the rule of the harness's scheduler (a failed timed get is not scheduled again before the
+   shared state has changed = never two time-outs in a row) every run has at most 8(end-start)+17 steps *)
+Theorem c13_poll_fair_run_length : forall c m ls x, waits_for_marker m = true -> 0 < batch c ->
+  xpath c m (xinit c) ls x -> no_two_timeouts ls = true ->
+  length ls <= 2 * (4 * (end_ c - start_ c) + 8) + 1.
+Proof. exact poll_fair_run_length. Qed.
+Print Assumptions c13_poll_fair_run_length.
+
+(* the final state is right whenever it is reached, *)
+Theorem c13_poll_final_state : forall c m x, waits_for_marker m = true -> 0 < batch c ->
+  xreach c m x -> xfinal x -> final_ok c (base x).
+Proof. exact poll_final_state. Qed.
+Print Assumptions c13_poll_final_state.
+
+(* and it is reached, and right, on EVERY fair schedule: AF over the steps that are not time-outs
+   (`inev_p`: P holds, or a non-time-out step exists and after every such step inev_p again) *)
+Theorem c13_poll_every_fair_schedule_ends_ok : forall c m, waits_for_marker m = true -> 0 < batch c ->
+  inev_p c m (fun y => xfinal y /\ final_ok c (base y)) (xinit c).
+Proof. exact poll_every_fair_schedule_ends_ok. Qed.
+Print Assumptions c13_poll_every_fair_schedule_ends_ok.
+
+(* the widened trace checker: sound for every mode; an accepted trace of a consumer that waits for
+   the marker shows the specified stream; on traces without time-outs it is the checker of Stream.v.
+   (Completeness is proved for the blocking consumer only: c13_accepts_exact.) *)
+Theorem c13_xaccepts_sound : forall c m tr, xaccepts c m tr = true ->
+  exists ls x, xpath c m (xinit c) ls x /\ obs_of ls = tr /\ xreach c m x /\ xfinal x.
+Proof. exact xaccepts_sound. Qed.
+Print Assumptions c13_xaccepts_sound.
+
+Theorem c13_xaccepts_spec : forall c m tr, waits_for_marker m = true -> 0 < batch c ->
+  xaccepts c m tr = true ->
+  yields_of (base_events tr) = chunks (batch c) (delivered c) /\
+  gets_of (base_events tr) = map Frame (delivered c) ++ [Sentinel].
+Proof. exact xaccepts_spec. Qed.
+Print Assumptions c13_xaccepts_spec.
+
+Theorem c13_xaccepts_blocking : forall c tr, xaccepts c Blocking (map XEv tr) = accepts c tr.
+Proof. exact xaccepts_blocking. Qed.
+Print Assumptions c13_xaccepts_blocking.
+
+Example ex_polling_trace :
+  xaccepts giveup_cfg Polling
+    [XEv EvStart; XTimeout; XEv (EvReadOk 0); XTimeout; XEv (EvPut 0); XEv (EvGet 0); XEv (EvYield [0]);
+     XTimeout; XEv EvPutSent; XEv EvGetSent; XEv EvJoin] = true /\
+  xaccepts giveup_cfg Blocking polling_trace = false.
+Proof. exact polling_trace_accepted. Qed.
+
+(* --- the consumer that gives up when the reader thread is dead (seeded change C13_m4) ------- *)
+
+(* `get(timeout)` raised Empty; the reader then delivers everything and ends; only now the consumer
+   calls is_alive(), sees a dead reader and fabricates the marker: the run ends "normally" with
+   frame 0 and the real marker still in the queue and nothing yielded. *)
+Theorem c13_giveup_loses_frames : exists c x,
+  0 < batch c /\ fault c = None /\ xreach c GiveUp x /\ xfinal x /\
+  delivered c = [0] /\ yielded (base x) = [] /\ q (base x) = [Frame 0; Sentinel].
+Proof. exact giveup_loses_frames. Qed.
+Print Assumptions c13_giveup_loses_frames.
+
+(* c13_poll_final_state with GiveUp in place of a consumer that waits for the marker is false *)
+Theorem c13_giveup_final_state_refuted :
+  ~ (forall c x, 0 < batch c -> xreach c GiveUp x -> xfinal x -> final_ok c (base x)).
+Proof. exact giveup_final_state_refuted. Qed.
+Print Assumptions c13_giveup_final_state_refuted.
+
+Example ex_giveup_trace :
+  xaccepts giveup_cfg GiveUp
+    [XEv EvStart; XTimeout; XEv (EvReadOk 0); XEv (EvPut 0); XEv EvPutSent; XAlive false; XEv EvJoin] = true /\
+  xaccepts giveup_cfg Polling giveup_trace = false.
+Proof. split; [exact giveup_trace_accepted | exact giveup_trace_not_polling]. Qed.
+
+(* --- how the readers are constructed ------------------------------------------------------ *)
+
+(* VideoReader(video, buffer, start_idx, end_idx) / VideoReader.from_filename: None means 0 resp.
+   the length of the video; 0 means 0 *)
+Lemma video_cfg_def : forall r,
+  video_cfg r = mkCfg (match vr_start r with Some s => s | None => 0 end)
+                      (match vr_end r with Some e => e | None => vr_frames r end)
+                      (vr_cap r) (vr_batch r) (vr_fault r).
+Proof. exact video_cfg_unfold. Qed.
+Print Assumptions video_cfg_def.
+
+Theorem c13_video_request_delivered : forall r i,
+  In i (delivered (video_cfg r)) <->
+  ((match vr_start r with Some s => s | None => 0 end) <= i
+     < (match vr_end r with Some e => e | None => vr_frames r end) /\
+   forall f, vr_fault r = Some f -> (match vr_start r with Some s => s | None => 0 end) <= f -> i < f).
+Proof. exact video_request_delivered. Qed.
+Print Assumptions c13_video_request_delivered.
+
+Theorem c13_video_end_zero_empty : forall r, vr_end r = Some 0 -> delivered (video_cfg r) = [].
+Proof. exact video_end_zero_empty. Qed.
+Print Assumptions c13_video_end_zero_empty.
+
+Theorem c13_video_defaults_whole : forall n cp b,
+  delivered (video_cfg (mkVReq n None None cp b None)) = seq 0 n.
+Proof. exact video_defaults_whole. Qed.
+Print Assumptions c13_video_defaults_whole.
+
+(* total_len() = end - start: the number of frames delivered when no read fails; negative only
+   for an inverted range, which delivers nothing *)
+Theorem c13_video_total_len : forall r, vr_fault r = None ->
+  fst (video_total_len r) = length (delivered (video_cfg r)) /\
+  (snd (video_total_len r) = 0 \/ delivered (video_cfg r) = []).
+Proof. exact video_total_len_ok. Qed.
+Print Assumptions c13_video_total_len.
+
+(* LabelsReader with instances_key (finding F130): a labelled frame without a non-empty instance
+   makes `np.stack([])` raise inside the reader's try block, so the unrepaired reader handles it
+   like a read failure: that frame and every later one are lost although all of them can be read.
+   `labels_cfg` is the code (lr_fixed = false: as found; true: repaired), `labels_spec_cfg` the
+   property (only read failures end the stream early). *)
+Theorem c13_labels_full_refuted : exists r, lr_fault r = None /\
+  delivered (labels_spec_cfg r) = [0; 1; 2] /\ delivered (labels_cfg r) = [0].
+Proof. exact labels_full_refuted. Qed.
+Print Assumptions c13_labels_full_refuted.
+
+Theorem c13_labels_partial : forall r, bare_frame_selector r = false ->
+  delivered (labels_cfg r) = delivered (labels_spec_cfg r).
+Proof. exact labels_partial. Qed.
+Print Assumptions c13_labels_partial.
+
+Theorem c13_labels_fixed : forall r, lr_fixed r = true -> labels_cfg r = labels_spec_cfg r.
+Proof. exact labels_fixed. Qed.
+Print Assumptions c13_labels_fixed.
+
+(* the selector is exact: inside it the unrepaired reader does lose the bare frame *)
+Theorem c13_labels_selector_exact : forall r, lr_fixed r = false -> bare_frame_selector r = true ->
+  exists bf, lr_first_bare r = Some bf /\ In bf (delivered (labels_spec_cfg r)) /\
+             ~ In bf (delivered (labels_cfg r)).
+Proof. exact labels_selected_truncated. Qed.
+Print Assumptions c13_labels_selector_exact.
+
+Example ex_reader_requests :
+  delivered (video_cfg (mkVReq 5 None (Some 0) 1 1 None)) = [] /\
+  delivered (video_cfg (mkVReq 5 (Some 0) None 1 1 None)) = [0;1;2;3;4] /\
+  delivered (video_cfg (mkVReq 5 (Some 2) (Some 4) 1 1 None)) = [2;3] /\
+  video_total_len (mkVReq 5 (Some 4) (Some 2) 1 1 None) = (0, 2) /\
+  bare_frame_selector bare_witness = true /\
+  bare_frame_selector (mkLReq 3 2 1 (Some 1) true (Some 1) false) = false /\
+  bare_frame_selector (mkLReq 3 2 1 None false (Some 1) false) = false.
+Proof. exact ex_requests. Qed.
+
+(* --- observation outside the property: an exception in the consumer --------------------------- *)
+
+(* a reader waiting at put() on a full queue is moved only by a get of the consumer; the state in
+   which the consumer is about to call the inference callable while the reader waits there is
+   reachable.  So when the inference callable raises, the (non-daemon) reader thread waits for ever.
+   The property speaks about READ failures only; this is recorded, not reported. *)
+Theorem c13_blocked_reader_needs_get : forall c l s s',
+  lstep c l s s' -> ((exists i, pp s = PPut i) \/ pp s = PSent) -> full c (q s) = true ->
+  pp s' = pp s /\ (q s' = q s \/ exists x, taken s' = taken s ++ [x]).
+Proof. exact blocked_reader_needs_get. Qed.
+Print Assumptions c13_blocked_reader_needs_get.
+
+Example ex_reader_blocked_while_inferring :
+  reach crash_cfg crash_state /\ full crash_cfg (q crash_state) = true.
+Proof. exact crash_state_reachable. Qed.
